@@ -3,7 +3,11 @@
 (* A trace = the ROM configuration of the device (rom) + one logged event per ROM step; every      *)
 (* step must satisfy the clause of MbiRom.tla over the LOGGED numbers and the registers the spec    *)
 (* accumulated from the earlier events.  A trace is accepted when it is consumed to its end, and    *)
-(* its end must be the Accept event (there is no action for the executor's Reject event).           *)
+(* its end must be the Accept event (there is no action for the executor's Reject event) - or, for  *)
+(* the unsettled corner of MbiRom.tla only, the CertSplit event: SplitOK over the header the spec    *)
+(* has read AND the payload length the harness supplied (Traces[tid].pay, aligned payload incl.      *)
+(* relocation table) must both say that the payload ends before byte 64, so that no other image can  *)
+(* leave the automaton that way.                                                                     *)
 EXTENDS MbiRom, Json, IOUtils
 Traces == ndJsonDeserialize(IOEnv.TRACE_FILE)
 VARIABLES tid, l, s
@@ -18,6 +22,8 @@ TInit == tid \in 1..Len(Traces) /\ l = 1 /\ s = S0 /\ TLCSet(tid, 1)
 ReadIvt      == Is("ReadIvt")      /\ IvtOK(rom, s, E)    /\ s' = IvtNx(rom, s, E)    /\ Adv
 CheckCrc     == Is("CheckCrc")     /\ CrcOK(rom, s, E)    /\ s' = CrcNx(rom, s, E)    /\ Adv
 CheckHmac    == Is("CheckHmac")    /\ HmacOK(rom, s, E)   /\ s' = HmacNx(rom, s, E)   /\ Adv
+CertSplit    == Is("CertSplit") /\ l = Len(T) /\ Traces[tid].pay < IvtLen /\ Traces[tid].pay = Word(s.h.w28)
+                /\ SplitOK(rom, s, E)   /\ s' = SplitNx(rom, s, E)  /\ Adv
 CertBlockV1  == Is("CertBlockV1")  /\ Cb1OK(rom, s, E)    /\ s' = Cb1Nx(rom, s, E)    /\ Adv
 CertV1       == Is("CertV1")       /\ Cert1OK(rom, s, E)  /\ s' = Cert1Nx(rom, s, E)  /\ Adv
 RkhTable     == Is("RkhTable")     /\ RkhOK(rom, s, E)    /\ s' = RkhNx(rom, s, E)    /\ Adv
@@ -32,7 +38,7 @@ ManifestCrc  == Is("ManifestCrc")  /\ ManCrcOK(rom, s, E) /\ s' = ManCrcNx(rom, 
 VerifySigV21 == Is("VerifySigV21") /\ Sig21OK(rom, s, E)  /\ s' = Sig21Nx(rom, s, E)  /\ Adv
 CheckDigest  == Is("CheckDigest")  /\ DigOK(rom, s, E)    /\ s' = DigNx(rom, s, E)    /\ Adv
 Accept       == Is("Accept") /\ l = Len(T) /\ AcceptOK(rom, s) /\ s' = AcceptNx(rom, s) /\ Adv
-TNext == ReadIvt \/ CheckCrc \/ CheckHmac \/ CertBlockV1 \/ CertV1 \/ RkhTable \/ VerifySigV1 \/ Decrypt \/ CertBlockV21
+TNext == ReadIvt \/ CheckCrc \/ CheckHmac \/ CertSplit \/ CertBlockV1 \/ CertV1 \/ RkhTable \/ VerifySigV1 \/ Decrypt \/ CertBlockV21
          \/ RootKeyRecord \/ IskCert \/ CertBlockEnd \/ Manifest \/ ManifestCrc \/ VerifySigV21 \/ CheckDigest \/ Accept
 Constr == IF TLCGet(tid) < l THEN TLCSet(tid, l) ELSE TRUE
 Post == \A i \in 1..Len(Traces) :
